@@ -473,7 +473,13 @@ class SqlImpl(TableImpl):
                 uid: sqa.label(name, cls.compile_col_expr(val, sqa_expr))
                 for name, uid, val in zip(nd.names, nd.uuids, nd.values, strict=True)
             }
-            query.group_by.extend(col._uuid for col in query.partition_by if not types.is_const(col.dtype()))
+            # A column reference held from before a union keeps its constant type although
+            # the column is not constant in the union, so the compiled expression decides too.
+            query.group_by.extend(
+                col._uuid
+                for col in query.partition_by
+                if not (types.is_const(col.dtype()) and is_constant_sqa_expr(sqa_expr[col._uuid]))
+            )
             # a grouping column overwritten by one of the new columns is not selected
             query.select = [
                 col._uuid for col in query.partition_by if sqa_expr[col._uuid].name not in set(nd.names)
@@ -649,10 +655,7 @@ def dedup_order_by(
         # A constant does not influence the ordering, but SQL interprets an integer
         # literal (SQLite: any constant integer expression) in ORDER BY as the position
         # of a result column.
-        if not any(
-            isinstance(el, sqa.sql.elements.ColumnClause | sqa.sql.functions.FunctionElement)
-            for el in sqa.sql.visitors.iterate(peeled)
-        ):
+        if is_constant_sqa_expr(peeled):
             continue
 
         if peeled not in occurred:
@@ -660,6 +663,13 @@ def dedup_order_by(
             occurred.add(peeled)
 
     return new_order_by
+
+
+def is_constant_sqa_expr(expr: sqa.ColumnElement) -> bool:
+    return not any(
+        isinstance(el, sqa.sql.elements.ColumnClause | sqa.sql.functions.FunctionElement)
+        for el in sqa.sql.visitors.iterate(expr)
+    )
 
 
 # Gives any leaf a unique alias to allow self-joins. We do this here to not force
